@@ -514,7 +514,9 @@ def run(ctx, spec):
         if i % 4 >= 2:
             fs.listing_order = "creation"      # listings follow the (schedule-dependent) creation order
         paths = [os.path.join(root, "a.parq")] + ([os.path.join(root, "b.parq")] if two else [])
-        tdfmt = os.path.join(root, "tmp", "t-{uuid}-{partition}") if i % 2 else None
+        # temp directories: inside the dataset / outside, one per partition / outside, all below one {uuid} directory
+        tdfmt = [None, os.path.join(root, "tmp", "t-{uuid}-{partition}"),
+                 os.path.join(root, "tmp", "{uuid}", "part-{partition}")][i % 3]
         errs = []
 
         def do(path):
@@ -558,6 +560,13 @@ def run(ctx, spec):
                                                                   "differs": what})
             tree = fsmon.scan_tree(root)
             left = sorted(t for t in tree if t.startswith("tmp/") and t != "tmp/")
+            if i % 3 == 2:
+                # with the per-partition directories below one {uuid} directory, that (then empty) directory stays
+                # behind in the serial run as well (a C10 finding, see known_findings.json): it does not depend on
+                # the schedule and is not this property's business
+                import re as _re
+                left = [t for t in left if not (_re.fullmatch(r"tmp/[0-9a-f-]{36}/", t)
+                                                and not any(u != t and u.startswith(t) for u in tree))]
             if left:
                 viol("leftovers", "schedule:pack_to_parquet:temp-left-under-threads",
                      {"op": "pack_partitions_to_parquet", "config": cfg}, [], left[:8])
